@@ -109,6 +109,8 @@ def run(prop, tier):
                 cid, _, flags = R[k % len(R)]
                 big.append((cid, bytes((k + i) & 0xFF for i in range(64 if fd else 8)), flags))
             cases.append(((cf, udp, fd), n, big))
+        # a long run through one talker and one listener process: 300 single-frame packets (the 8-bit sequence numbers wrap)
+        cases.append(((cf, udp, fd), 1, [(R[k % len(R)][0], bytes((k + i) & 0xFF for i in range(1 + k % 8)), R[k % len(R)][2]) for k in range(300)]))
         # two packets in sequence
         for tup in itertools.product(R[:6], repeat=2):
             cases.append(((cf, udp, fd), 1, list(tup)))
@@ -193,7 +195,7 @@ def run(prop, tier):
     json.dump([[list(m), c, [[f[0], f[1].hex(), f[2]] for f in fr]] for m, c, fr in cases], open(json_cases, 'w'))
     core.finish('C19', tier, t0, res,
                 rule='tunnel runs = {TSCF,NTSCF} x {UDP,raw} x {classic,FD} x (every single frame of the alphabet: ids {0,1,0x7FF,0x800,0x1FFFFFFF} x EFF x RTR | BRS x ESI x lengths x 2 data patterns) + all ordered 2- and 3-tuples over the reduced alphabet {EFF x RTR | EFF x BRS x ESI} x {len 1, 8} with 2/3 frames per packet + two packets in sequence; real talker main() -> captured packets -> real listener main(); frames out compared with frames in; control header data length checked on every packet',
-                bounds={'tunnel_runs': ntun, 'frames_per_packet': [1, 2, 3, 'classic 42/43/60', 'FD 11/12/16 x 64 bytes'], 'modes': 8},
+                bounds={'tunnel_runs': ntun, 'frames_per_packet': [1, 2, 3, 'classic 42/43/60', 'FD 11/12/16 x 64 bytes'], 'longest_run': '300 packets through one talker/listener process', 'modes': 8},
                 assumptions=['only frames a CAN_RAW socket can deliver (classic len <= 8; FD frames carry CANFD_FDF); data beyond len not compared',
                              'FD mode of the listener is entered by setting its mode variable (its --fd option dereferences a null argument at start-up, outside this property)',
                              'both programs run under ASan+UBSan with pattern-initialised locals'],
